@@ -34,3 +34,33 @@ def wide_chain(seed, coin='bitcoin', ntx=66000):
     add(2, [btc.coinbase(2, spk), wide_in, wide_out, wide_wit, fat_script])
     add(3, [btc.coinbase(3, spk)])
     return blocks
+
+
+# heights at which some consensus rule, soft fork or historical accident of a Bitcoin-family chain sits: a parser has no rule
+# that depends on the height (except the reward schedule of simplestats), so chains indexed around them behave like any other
+SPECIAL_HEIGHTS = [19200,                                   # namecoin: merged mining
+                   91722, 91812, 91842, 91880,              # the two duplicated coinbases (BIP30) and their repeats
+                   173805, 227931, 363725, 388381, 419328,  # BIP16, BIP34, BIP66, BIP65, CSV
+                   209999, 210000, 420000, 630000, 840000,  # halvings
+                   371337,                                  # dogecoin: AuxPoW
+                   478558, 481824, 504031, 709632,          # BCH split, segwit, segwit2x, taproot
+                   1201536, 1320000]                        # litecoin segwit, namecoin segwit
+
+
+def special_height_chain(h, coin='bitcoin', seed=0):
+    """three ordinary blocks to be indexed at h-1, h, h+1: coinbase (with an addressed and a data output), a payment spending the
+    previous block's coinbase, a duplicate-looking coinbase script"""
+    r0 = random.Random('special-%s-%d-%s' % (coin, h, seed))
+    spk = btc.p2pkh(r0.randbytes(20))
+    blocks, prev, last_cb = [], r0.randbytes(32), None
+    for k in range(3):
+        cb = btc.coinbase(h - 1 + k, None, outs=[{'val': 50 * 10 ** 8 + k, 'spk': spk}, {'val': 0, 'spk': b'\x6a' + btc.push(b'at %d' % (h - 1 + k))}])
+        txs = [cb]
+        if last_cb is not None:
+            # (the coinbase of the middle block stays unspent: the last block spends the middle block's payment instead)
+            txs.append({'ver': 1, 'ins': [{'txid': btc.txid(last_cb), 'idx': 0 if k == 1 else 1, 'sig': b'\x01\x01', 'seq': 0xffffffff}],
+                        'outs': [{'val': 49 * 10 ** 8, 'spk': btc.p2pkh(r0.randbytes(20))}, {'val': 10 ** 8 - 1000, 'spk': spk}], 'lock': 0})
+        b = datadir.mk_block(prev, txs, t=1300000000 + 600 * k, nonce=k)
+        blocks.append(b)
+        prev, last_cb = b['hash'], (cb if k == 0 else txs[-1])
+    return blocks
